@@ -1,5 +1,5 @@
 import RainModel.Model.LoopStep
-import RainModel.Lemmas.LoopFrameStep
+import RainModel.Lemmas.LoopFrame
 /-!
 C19 — private torrents use only their trackers.  Theorems over M-LOOP (the model of the repaired
 code, finding C19-F1); the tie to the code is the `private` suite.
